@@ -1,10 +1,22 @@
 /-
 C10 — external tensor reads never escape the model directory: property theorems.
-Model: `IrVerif/Model/Path.lean`; helper lemmas: `IrVerif/Lemmas/Path.lean`.
+Model: `IrVerif/Model/Path.lean`; helper lemmas: `IrVerif/Lemmas/Path*.lean`.
+
+Round 3 (deepening) added, next to the round-1/2 theorems: `C10_nul_rejected` (NUL characters are in
+the model: check 2 raises), `C10_eloop_no_open` (a path the kernel does not resolve within its
+symlink bound is never opened, whatever `os.path.realpath` said), `C10_fuel_discharged` (the
+recursion bound of the transcribed `realpath` is discharged by the kernel's bound: every
+`fuel ≥ kfuel` gives the outcome of `fuel = kfuel`), `C10_zero_size` (zero-size tensors: `bodyZ`),
+and `C10_world_safe` (supersedes `C10_session_safe`: several tensors, `base_dir` values of type str /
+os.PathLike / bytes, and every public way of re-basing: setter, `set_base_dir`, `load_to_model`,
+`convert_tensors_from_external`; a clone shares the tensor objects).  Entry-point completeness
+(`body` lists ALL places where onnx_ir opens a location-derived path) is tied to /repo by the static
+scan in harness/c10.py (FILE_SITES / PATH_USERS), not by a theorem.
 -/
 import IrVerif.Lemmas.PathReal
 import IrVerif.Lemmas.PathLoad
 import IrVerif.Lemmas.PathCall
+import IrVerif.Lemmas.PathWorld
 namespace IrVerif.Path
 
 /-- **C10_lexical**: when check 1 (_core.py:789-799) passes, the components of
@@ -66,6 +78,18 @@ example : loadBaseUnfixed "model.onnx".toList = [] := by decide
 example : loadBase "/w".toList "model.onnx".toList = "/w/.".toList := by decide
 example : loadBase "/w".toList "dir/model.onnx".toList = "/w/dir".toList := by decide
 
+/-- check 2 passes: no NUL character in the base directory or the location, and the resolved path
+is (character-wise) inside the resolved base -/
+theorem check2_true (fs : FS) (kfuel fuel : Nat) (cwdS : Str) (cwd : Loc) (base loc : Str)
+    (h : check2 fs kfuel fuel cwdS cwd base loc = true) :
+    (hasNul base || hasNul loc) = false ∧
+      contained (realpath fs kfuel fuel cwdS cwd base)
+        (realpath fs kfuel fuel cwdS cwd (tensorPath base loc)) = true := by
+  unfold check2 at h
+  cases hn : (hasNul base || hasNul loc) with
+  | true => simp [hn] at h
+  | false => simpa [hn] using h
+
 /-- **C10_real**: when check 2 (_core.py:802-810) passes, the components of
 `realpath(join(base, loc))` extend those of `realpath(base)` component-wise, and both consist of
 entry names only.  For every file system, cwd string, base spelling and location. -/
@@ -75,7 +99,7 @@ theorem C10_real (fs : FS) (kfuel fuel : Nat) (cwdS : Str) (cwd : Loc) (base loc
       comps (realpath fs kfuel fuel cwdS cwd (tensorPath base loc)) ∧
     (∀ c ∈ comps (realpath fs kfuel fuel cwdS cwd (tensorPath base loc)), Clean c) ∧
     (∀ c ∈ comps (realpath fs kfuel fuel cwdS cwd base), Clean c) := by
-  refine ⟨contained_comps _ _ h, ?_, ?_⟩ <;>
+  refine ⟨contained_comps _ _ (check2_true _ _ _ _ _ _ _ h).2, ?_, ?_⟩ <;>
   · unfold realpath abspath
     rw [comps_normpath_abs _ (isabs_abspath_arg cwdS _ hcwd)]
     exact normStack_clean _
@@ -115,6 +139,8 @@ theorem openFile_some (fs : FS) (kfuel : Nat) (cwd : Loc) (p : Str) (i : Nat) (r
     ∃ l, kresolve fs kfuel cwd p true = some l ∧
       ((reg = true ∧ fs.get l = some (Node.file i)) ∨ (reg = false ∧ fs.get l = some (Node.other i))) := by
   unfold openFile at h
+  split at h
+  · exact absurd h (by simp)
   cases hk : kresolve fs kfuel cwd p true with
   | none => simp [hk] at h
   | some l =>
@@ -156,7 +182,7 @@ theorem safeOpen_of_pass (fs : FS) (kfuel fuel : Nat) (cwd : Loc) (hcwd : RealDi
   obtain ⟨l, hk, hkind⟩ := openFile_some _ _ _ _ _ _ ho
   obtain ⟨hrp, hchain⟩ := realpath_of_kresolve fs kfuel fuel cwd hcwd _ kfuel l hk hfuel
   have hin : comps (realpath fs kfuel fuel (render cwd) cwd base) <+: l := by
-    have := contained_comps _ _ hc2
+    have := contained_comps _ _ (check2_true _ _ _ _ _ _ _ hc2).2
     rwa [hrp, comps_render l hchain.1] at this
   -- check 3 looked at the very same object: regular, at most one link
   have hreg : fs.get l = some (Node.file i) ∧ fs.nlink i ≤ 1 := by
@@ -285,7 +311,7 @@ example (e : Env) (i : Nat) :
   | none => simp
   | some ir =>
     obtain ⟨j, reg⟩ := ir
-    by_cases h : (e.fs.data j).length < e.offset + e.length <;> simp [h]
+    by_cases h : 0 < e.length ∧ (e.fs.data j).length < e.offset + e.length <;> simp [h]
 
 /-- **C10_call_events**: whatever the cached state, the events of one call are either none at all
 (only a non-`tofile` entry point of a tensor with cached state: it is served from the mapping and
@@ -684,7 +710,7 @@ theorem ex_guarded : guardedOpen exFS 40 40 (render []) [] "/b".toList "f".toLis
     rw [if_neg (by decide), if_neg (by rw [c1]; simp), if_neg (by rw [c2]; simp),
       if_neg (by rw [c3]; simp)]
   have ho : openFile exFS 40 [] "/b/f".toList = some (1, true) := by
-    unfold openFile; rw [hk]; decide
+    unfold openFile; rw [if_neg (by decide), hk]; decide
   unfold guardedOpen
   rw [hv, hp, ho]
   simp [rejecting]
@@ -835,5 +861,526 @@ example :
     "d1_attr" ∉ allTensorsShallow g ∧ "deep_init" ∉ allTensorsShallow g ∧
     "d1_attr" ∈ allTensors g ∧ "deep_init" ∈ allTensors g := by
   decide
+
+end IrVerif.Path
+
+/-! ### NUL characters, ELOOP, and the recursion bound of `os.path.realpath` -/
+namespace IrVerif.Path
+
+/-- **C10_nul_rejected**: with a non-empty base directory, a NUL character anywhere in the base
+directory or in the location makes the containment check raise (check 1 when the string is lexically
+outside, otherwise check 2, whose `os.lstat` raises ValueError), for every tree; hence every call of
+every entry point, from any cached state, opens nothing, and raises unless it is served from state
+cached by an earlier call. -/
+theorem C10_nul_rejected (fs : FS) (kfuel fuel : Nat) (cwdS : Str) (cwd : Loc) (base loc : Str)
+    (offset length : Nat) (ep : EntryPoint) (st : TState) (hb : base ≠ [])
+    (hn : hasNul base = true ∨ hasNul loc = true) :
+    rejecting (checkContainment fs kfuel fuel cwdS cwd base loc) = true ∧
+    (∀ p oi, Ev.openEv p oi ∉ (call fs kfuel fuel cwdS cwd base loc offset length ep st).2.1) ∧
+    ((call fs kfuel fuel cwdS cwd base loc offset length ep st).2.1 ≠ [] →
+      (call fs kfuel fuel cwdS cwd base loc offset length ep st).1 = ReadResult.raised) := by
+  have h2 : check2 fs kfuel fuel cwdS cwd base loc = false := by
+    unfold check2; rcases hn with h | h <;> simp [h]
+  have hrej : rejecting (checkContainment fs kfuel fuel cwdS cwd base loc) = true := by
+    unfold checkContainment
+    simp only [hb, if_false]
+    split
+    · rfl
+    · simp [h2, rejecting]
+  exact ⟨hrej, (C10_all_entry_points fs kfuel fuel cwdS cwd base loc offset length ep st).2.2.1 hrej⟩
+
+example : hasNul ['f', Char.ofNat 0] = true ∧ hasNul "d/f".toList = false := by decide
+
+theorem openFile_none_of_kresolve (fs : FS) (kfuel : Nat) (cwd : Loc) (p : Str)
+    (h : kresolve fs kfuel cwd p true = none) : openFile fs kfuel cwd p = none := by
+  unfold openFile; rw [h]; simp
+
+/-- **C10_eloop_no_open**: when the kernel does not resolve `join(base, loc)` within its symlink
+bound `kfuel` (ELOOP: a symbolic-link loop, or links nested deeper than the bound; also ENOENT /
+ENOTDIR), then whatever `os.path.realpath` computed for it (it has no such bound) and whatever the
+three checks concluded, a call of any entry point from any cached state opens no file, and unless
+it is served from state cached earlier (no event at all) it raises and leaves the cached state
+unchanged. -/
+theorem C10_eloop_no_open (fs : FS) (kfuel fuel : Nat) (cwdS : Str) (cwd : Loc) (base loc : Str)
+    (offset length : Nat) (ep : EntryPoint) (st : TState)
+    (h : kresolve fs kfuel cwd (tensorPath base loc) true = none) :
+    (∀ p i, Ev.openEv p (some i) ∉ (call fs kfuel fuel cwdS cwd base loc offset length ep st).2.1) ∧
+    ((call fs kfuel fuel cwdS cwd base loc offset length ep st).2.1 ≠ [] →
+      (call fs kfuel fuel cwdS cwd base loc offset length ep st).1 = ReadResult.raised ∧
+      (call fs kfuel fuel cwdS cwd base loc offset length ep st).2.2 = st) := by
+  have ho := openFile_none_of_kresolve fs kfuel cwd _ h
+  have hg : guardedOpen fs kfuel fuel cwdS cwd base loc = none := by
+    unfold guardedOpen; split <;> simp [ho]
+  rw [call_eq_spec]
+  cases hq : quiet ep st with
+  | true =>
+    have := (callSpec_quiet fs kfuel fuel fuel cwdS cwd base loc offset length ep st hq).2
+    rw [this]
+    exact ⟨by simp, fun hne => absurd rfl hne⟩
+  | false =>
+    obtain ⟨hev, hres⟩ := callSpec_loud fs kfuel fuel cwdS cwd base loc offset length ep st hq
+    refine ⟨?_, fun _ => hres hg⟩
+    intro p i hm
+    rw [hev] at hm
+    obtain ⟨_, _, hoi⟩ := guardedEvents_open _ _ _ _ _ _ _ _ _ hm
+    rw [hg] at hoi
+    simp at hoi
+
+/-- a symbolic link met with an exhausted symlink bound: the kernel gives up (ELOOP) -/
+example (fs : FS) (cur : Loc) (c t : Str) (hd : fs.get cur = some Node.dir)
+    (h1 : ¬ (c = [] ∨ c = DOT)) (h2 : c ≠ DOTDOT) (hn : fs.get (cur ++ [c]) = some (Node.link t)) :
+    walk fs 0 cur [c] true = none := walk_step_link_zero fs cur c [] t hd h1 h2 hn
+
+/-- the verdict of the containment check is the same for every recursion bound at or above the
+kernel's symlink bound, whenever the kernel resolves the path and (for an absolute location) the
+base directory -/
+theorem checkContainment_fuel (fs : FS) (kfuel fuel fuel' : Nat) (cwd : Loc) (hcwd : RealDir fs cwd)
+    (hf : kfuel ≤ fuel) (hf' : kfuel ≤ fuel') (base loc : Str) (l : Loc)
+    (hp : kresolve fs kfuel cwd (tensorPath base loc) true = some l)
+    (hbase : isabs loc = true → base ≠ [] → ∃ bl, kresolve fs kfuel cwd base true = some bl) :
+    checkContainment fs kfuel fuel (render cwd) cwd base loc =
+      checkContainment fs kfuel fuel' (render cwd) cwd base loc := by
+  by_cases hb : base = []
+  · unfold checkContainment; simp [hb]
+  · obtain ⟨bl, hbl⟩ : ∃ bl, kresolve fs kfuel cwd base true = some bl := by
+      cases ha : isabs loc with
+      | true => exact hbase ha hb
+      | false => exact C10_base_resolves fs kfuel cwd base loc l hb ha hp
+    have r1 := (realpath_of_kresolve fs kfuel fuel cwd hcwd _ kfuel l hp hf).1
+    have r1' := (realpath_of_kresolve fs kfuel fuel' cwd hcwd _ kfuel l hp hf').1
+    have r2 := (realpath_of_kresolve fs kfuel fuel cwd hcwd _ kfuel bl hbl hf).1
+    have r2' := (realpath_of_kresolve fs kfuel fuel' cwd hcwd _ kfuel bl hbl hf').1
+    unfold checkContainment check2 check3
+    rw [r1, r1', r2, r2']
+
+/-- **C10_fuel_discharged**: the recursion bound `fuel` of the transcribed `os.path.realpath` (a
+model artefact standing for CPython's recursion limit) is discharged by the kernel's symlink-nesting
+bound `kfuel`: for EVERY `fuel ≥ kfuel` a call of any entry point from any cached state has the same
+result, leaves the same cached state and opens the same inodes as with `fuel = kfuel`, and performs
+no event in the one case iff in the other.  Hypothesis: for an ABSOLUTE location the kernel resolves
+the (non-empty) base directory; for relative locations nothing is assumed (`C10_base_resolves`).
+So every statement of this file about `fuel ≥ kfuel` is a statement about the single bound
+`kfuel`. -/
+theorem C10_fuel_discharged (fs : FS) (kfuel fuel : Nat) (cwd : Loc) (hcwd : RealDir fs cwd)
+    (hfuel : kfuel ≤ fuel) (base loc : Str) (offset length : Nat) (ep : EntryPoint) (st : TState)
+    (hbase : isabs loc = true → base ≠ [] → ∃ bl, kresolve fs kfuel cwd base true = some bl) :
+    (call fs kfuel fuel (render cwd) cwd base loc offset length ep st).1 =
+      (call fs kfuel kfuel (render cwd) cwd base loc offset length ep st).1 ∧
+    (call fs kfuel fuel (render cwd) cwd base loc offset length ep st).2.2 =
+      (call fs kfuel kfuel (render cwd) cwd base loc offset length ep st).2.2 ∧
+    (∀ p i, Ev.openEv p (some i) ∈ (call fs kfuel fuel (render cwd) cwd base loc offset length ep st).2.1 ↔
+      Ev.openEv p (some i) ∈ (call fs kfuel kfuel (render cwd) cwd base loc offset length ep st).2.1) ∧
+    ((call fs kfuel fuel (render cwd) cwd base loc offset length ep st).2.1 = [] ↔
+      (call fs kfuel kfuel (render cwd) cwd base loc offset length ep st).2.1 = []) := by
+  cases hp : kresolve fs kfuel cwd (tensorPath base loc) true with
+  | some l =>
+    have hv := checkContainment_fuel fs kfuel fuel kfuel cwd hcwd hfuel (Nat.le_refl _) base loc l hp hbase
+    rw [call_eq_spec, call_eq_spec, callSpec_congr fs kfuel fuel kfuel _ _ _ _ _ _ _ _ hv]
+    exact ⟨rfl, rfl, fun _ _ => Iff.rfl, Iff.rfl⟩
+  | none =>
+    obtain ⟨a1, a2⟩ := C10_eloop_no_open fs kfuel fuel (render cwd) cwd base loc offset length ep st hp
+    obtain ⟨b1, b2⟩ := C10_eloop_no_open fs kfuel kfuel (render cwd) cwd base loc offset length ep st hp
+    cases hq : quiet ep st with
+    | true =>
+      obtain ⟨heq, _⟩ := callSpec_quiet fs kfuel fuel kfuel (render cwd) cwd base loc offset length ep st hq
+      rw [call_eq_spec, call_eq_spec, heq]
+      exact ⟨rfl, rfl, fun _ _ => Iff.rfl, Iff.rfl⟩
+    | false =>
+      have e1 := (callSpec_loud fs kfuel fuel (render cwd) cwd base loc offset length ep st hq).1
+      have e0 := (callSpec_loud fs kfuel kfuel (render cwd) cwd base loc offset length ep st hq).1
+      have n1 : (call fs kfuel fuel (render cwd) cwd base loc offset length ep st).2.1 ≠ [] := by
+        rw [call_eq_spec, e1]; intro h
+        have := guardedEvents_head fs kfuel fuel (render cwd) cwd base loc
+        rw [h] at this; simp at this
+      have n0 : (call fs kfuel kfuel (render cwd) cwd base loc offset length ep st).2.1 ≠ [] := by
+        rw [call_eq_spec, e0]; intro h
+        have := guardedEvents_head fs kfuel kfuel (render cwd) cwd base loc
+        rw [h] at this; simp at this
+      obtain ⟨r1, s1⟩ := a2 n1
+      obtain ⟨r0, s0⟩ := b2 n0
+      refine ⟨by rw [r1, r0], by rw [s1, s0], ?_, ?_⟩
+      · intro p i
+        exact ⟨fun h => absurd h (a1 p i), fun h => absurd h (b1 p i)⟩
+      · exact ⟨fun h => absurd h n1, fun h => absurd h n0⟩
+
+end IrVerif.Path
+
+/-! ### zero-size tensors, `base_dir` of any type, histories of the public re-basing operations -/
+namespace IrVerif.Path
+
+/-- every file a call of `callT` opens: the base directory is not a `bytes` object, a zero-size
+tensor opens only through `tofile`, and with a non-empty base directory the open is a safe open -/
+theorem callT_opens (fs : FS) (kfuel fuel : Nat) (cwd : Loc) (hfuel : kfuel ≤ fuel) (p : TensorP)
+    (b : BaseVal) (ep : EntryPoint) (st : TState) (q : Str) (i : Nat)
+    (h : Ev.openEv q (some i) ∈ (callT fs kfuel fuel (render cwd) cwd p b ep st).2.1) :
+    b.kind ≠ BaseKind.bytes ∧ (p.zero = true → ep = EntryPoint.tofile) ∧
+    (b.s ≠ [] → RealDir fs cwd → q = tensorPath b.s p.loc ∧ SafeOpen fs kfuel fuel cwd b.s p.loc i) := by
+  unfold callT at h
+  by_cases hk : b.kind = BaseKind.bytes
+  · simp [hk] at h
+  · simp only [hk, if_false] at h
+    by_cases hz : p.zero = true
+    · simp only [hz, if_true] at h
+      by_cases hep : ep = EntryPoint.tofile
+      · subst hep
+        rw [zero_tofile] at h
+        exact ⟨hk, fun _ => rfl, fun hb hcwd =>
+          C10_call_open_safe fs kfuel fuel cwd hcwd hfuel b.s p.loc p.offset p.length _ st hb q i h⟩
+      · exact absurd h ((zero_nontofile _ st ep hep).1 q (some i))
+    · simp only [hz, if_false] at h
+      exact ⟨hk, fun hz' => absurd hz' hz, fun hb hcwd =>
+        C10_call_open_safe fs kfuel fuel cwd hcwd hfuel b.s p.loc p.offset p.length ep st hb q i h⟩
+
+/-- the bytes a call of `callT` returns and the inode mapped afterwards -/
+theorem callT_result (fs : FS) (kfuel fuel : Nat) (cwdS : Str) (cwd : Loc) (p : TensorP) (b : BaseVal)
+    (ep : EntryPoint) (st : TState) :
+    (∀ bytes, (callT fs kfuel fuel cwdS cwd p b ep st).1 = ReadResult.ok bytes →
+      (bytes = [] ∧ p.zero = true ∧ ep ≠ EntryPoint.tofile) ∨
+      ∃ i, bytes = sliceOf (fs.data i) p.offset p.length ∧
+        (Ev.openEv (tensorPath b.s p.loc) (some i) ∈ (callT fs kfuel fuel cwdS cwd p b ep st).2.1 ∨
+          ((callT fs kfuel fuel cwdS cwd p b ep st).2.1 = [] ∧ st.raw = some i))) ∧
+    (∀ i, (callT fs kfuel fuel cwdS cwd p b ep st).2.2.raw = some i →
+      st.raw = some i ∨
+        Ev.openEv (tensorPath b.s p.loc) (some i) ∈ (callT fs kfuel fuel cwdS cwd p b ep st).2.1) := by
+  unfold callT
+  by_cases hk : b.kind = BaseKind.bytes
+  · simp only [hk, if_true]
+    refine ⟨?_, fun i h => Or.inl h⟩
+    intro bytes h
+    by_cases hc : p.zero = true ∧ ep = EntryPoint.tobytes
+    · simp only [hc, and_self, if_true, ReadResult.ok.injEq] at h
+      exact Or.inl ⟨h.symm, hc.1, by rw [hc.2]; simp⟩
+    · simp [hc] at h
+  · simp only [hk, if_false]
+    by_cases hz : p.zero = true
+    · simp only [hz, if_true]
+      by_cases hep : ep = EntryPoint.tofile
+      · subst hep
+        rw [zero_tofile]
+        obtain ⟨h1, h2⟩ := C10_call_result fs kfuel fuel cwdS cwd b.s p.loc p.offset p.length EntryPoint.tofile st
+        exact ⟨fun bytes h => Or.inr (h1 bytes h), h2⟩
+      · obtain ⟨_, hb, hr, _, _⟩ := zero_nontofile
+          { fs := fs, kfuel := kfuel, fuel := fuel, cwdS := cwdS, cwd := cwd, base := b.s, loc := p.loc,
+            offset := p.offset, length := p.length } st ep hep
+        exact ⟨fun bytes h => Or.inl ⟨hb bytes h, (by first | exact hz | trivial), hep⟩, fun i h => Or.inl (hr i h)⟩
+    · simp only [hz, if_false]
+      obtain ⟨h1, h2⟩ := C10_call_result fs kfuel fuel cwdS cwd b.s p.loc p.offset p.length ep st
+      exact ⟨fun bytes h => Or.inr (h1 bytes h), h2⟩
+
+/-- **C10_zero_size**: a tensor with `size == 0`, any base directory value (str, os.PathLike, bytes),
+any entry point, any cached state: (1) numpy / `__array__` / tobytes / serialisation open nothing and
+return no byte (tobytes does not even run the check); (2) the only entry point that opens the file
+is `tofile`, and then the open is preceded by a non-rejecting containment check and, with a
+non-empty base directory, is a safe open; (3) when the check rejects, nothing is opened. -/
+theorem C10_zero_size (fs : FS) (kfuel fuel : Nat) (cwd : Loc) (hfuel : kfuel ≤ fuel) (p : TensorP)
+    (hz : p.zero = true) (b : BaseVal) (ep : EntryPoint) (st : TState) :
+    (ep ≠ EntryPoint.tofile →
+      (∀ q oi, Ev.openEv q oi ∉ (callT fs kfuel fuel (render cwd) cwd p b ep st).2.1) ∧
+      (∀ bytes, (callT fs kfuel fuel (render cwd) cwd p b ep st).1 = ReadResult.ok bytes → bytes = [])) ∧
+    (∀ q i, Ev.openEv q (some i) ∈ (callT fs kfuel fuel (render cwd) cwd p b ep st).2.1 →
+      ep = EntryPoint.tofile ∧ b.kind ≠ BaseKind.bytes ∧
+      (b.s ≠ [] → RealDir fs cwd → q = tensorPath b.s p.loc ∧ SafeOpen fs kfuel fuel cwd b.s p.loc i)) ∧
+    CheckedOpens (checkContainment fs kfuel fuel (render cwd) cwd b.s p.loc)
+      (callT fs kfuel fuel (render cwd) cwd p b ep st).2.1 := by
+  refine ⟨?_, ?_, ?_⟩
+  · intro hep
+    unfold callT
+    by_cases hk : b.kind = BaseKind.bytes
+    · simp only [hk, if_true]
+      refine ⟨by simp, ?_⟩
+      intro bytes h
+      by_cases hc : p.zero = true ∧ ep = EntryPoint.tobytes
+      · simp only [hc, and_self, if_true, ReadResult.ok.injEq] at h; exact h.symm
+      · simp [hc] at h
+    · simp only [hk, if_false, hz, if_true]
+      obtain ⟨h1, h2, _⟩ := zero_nontofile
+        { fs := fs, kfuel := kfuel, fuel := fuel, cwdS := render cwd, cwd := cwd, base := b.s, loc := p.loc,
+          offset := p.offset, length := p.length } st ep hep
+      exact ⟨h1, h2⟩
+  · intro q i h
+    obtain ⟨h1, h2, h3⟩ := callT_opens fs kfuel fuel cwd hfuel p b ep st q i h
+    exact ⟨h2 hz, h1, h3⟩
+  · unfold callT
+    by_cases hk : b.kind = BaseKind.bytes
+    · simp only [hk, if_true]
+      intro pre q oi post h
+      cases pre <;> simp at h
+    · simp only [hk, if_false, hz, if_true]
+      by_cases hep : ep = EntryPoint.tofile
+      · subst hep
+        rw [zero_tofile]
+        exact (C10_all_entry_points fs kfuel fuel (render cwd) cwd b.s p.loc p.offset p.length _ st).1
+      · intro pre q oi post h
+        have := (zero_nontofile
+          { fs := fs, kfuel := kfuel, fuel := fuel, cwdS := render cwd, cwd := cwd, base := b.s, loc := p.loc,
+            offset := p.offset, length := p.length } st ep hep).1 q oi
+        rw [h] at this
+        exact absurd (by simp) this
+
+/-- C10_zero_size is about something: a zero-size numpy() on the tree /b/f runs the check and
+returns no byte; a zero-size tofile() with a non-zero byte count opens the file -/
+example : (callT exFS 40 40 (render []) [] { loc := "f".toList, offset := 0, length := 0, zero := true }
+      { kind := BaseKind.str, s := "/b".toList } EntryPoint.tobytes TState.fresh) =
+    (ReadResult.ok [], [], TState.fresh) := by
+  simp [callT, runBody, bodyZ, execStmts, execStmt, execPrim, TState.fresh]
+
+end IrVerif.Path
+
+/-! ### histories over several tensors: setter, `set_base_dir`, `load_to_model`, `convert_tensors_from_external` -/
+namespace IrVerif.Path
+
+/-- every log entry of a history is the output of a `callT` in the tree / base of that moment -/
+theorem runMicro_entries (kfuel fuel : Nat) (cwdS : Str) (cwd : Loc) (ps : Nat → TensorP) :
+    ∀ (mops : List MOp) (w : World), ∀ e ∈ runMicro kfuel fuel cwdS cwd ps w mops,
+      ∃ st, e.events = (callT e.fs kfuel fuel cwdS cwd (ps e.t) e.base e.ep st).2.1 ∧
+        e.res = (callT e.fs kfuel fuel cwdS cwd (ps e.t) e.base e.ep st).1 := by
+  intro mops
+  induction mops with
+  | nil => intro w e he; simp [runMicro] at he
+  | cons x xs ih =>
+    intro w e he
+    cases x with
+    | setFS fs => simp only [runMicro, stepWorld] at he; exact ih _ e he
+    | rebase t b => simp only [runMicro, stepWorld] at he; exact ih _ e he
+    | release t => simp only [runMicro, stepWorld] at he; exact ih _ e he
+    | beginLoad => simp only [runMicro, stepWorld] at he; exact ih _ e he
+    | call t ep =>
+      simp only [runMicro, stepWorld, List.mem_cons] at he
+      rcases he with rfl | he
+      · exact ⟨(w.ts t).st, rfl, rfl⟩
+      · exact ih _ e he
+    | loadOne t =>
+      by_cases hab : w.aborted = true
+      · simp only [runMicro, stepWorld, hab, if_true] at he; exact ih _ e he
+      · simp only [runMicro, stepWorld, hab, Bool.false_eq_true, if_false, List.mem_cons] at he
+        rcases he with rfl | he
+        · exact ⟨(w.ts t).st, rfl, rfl⟩
+        · exact ih _ e he
+
+/-- the step shared by `call` and a running `loadOne`: one entry `e0` is logged for tensor `t` and the
+rest of the history continues from a world whose tensors are those of `w` with `t`'s cached state
+replaced by the state after the call -/
+theorem runMicro_bytes_step (kfuel fuel : Nat) (cwdS : Str) (cwd : Loc) (ps : Nat → TensorP)
+    (Q : World → (Nat → BaseVal → Nat → Prop) → List WLog → Prop)
+    (hQ : ∀ w P log, Q w P log ↔
+      ((∀ t i, (w.ts t).st.raw = some i → P t (w.ts t).base i) →
+        ∀ (pre : List WLog) (e : WLog) (post : List WLog), log = pre ++ e :: post →
+        ∀ bytes, e.res = ReadResult.ok bytes →
+          (bytes = [] ∧ (ps e.t).zero = true ∧ e.ep ≠ EntryPoint.tofile) ∨
+          ∃ i, bytes = sliceOf (e.fs.data i) (ps e.t).offset (ps e.t).length ∧
+            (P e.t e.base i ∨ ∃ e' ∈ pre ++ [e], e'.t = e.t ∧ e'.base = e.base ∧
+              Ev.openEv (tensorPath e.base.s (ps e.t).loc) (some i) ∈ e'.events)))
+    (w w' : World) (t : Nat) (ep : EntryPoint) (rest : List WLog)
+    (hts : w'.ts = fun k => if k = t then { (w.ts t) with
+      st := (callT w.fs kfuel fuel cwdS cwd (ps t) (w.ts t).base ep (w.ts t).st).2.2 } else w.ts k)
+    (ih : ∀ P, Q w' P rest) (P : Nat → BaseVal → Nat → Prop) :
+    Q w P ({ t := t, fs := w.fs, base := (w.ts t).base, ep := ep,
+             res := (callT w.fs kfuel fuel cwdS cwd (ps t) (w.ts t).base ep (w.ts t).st).1,
+             events := (callT w.fs kfuel fuel cwdS cwd (ps t) (w.ts t).base ep (w.ts t).st).2.1 } :: rest) := by
+  rw [hQ]
+  intro hP pre e post hlog bytes hb
+  obtain ⟨hres, hstate⟩ := callT_result w.fs kfuel fuel cwdS cwd (ps t) (w.ts t).base ep (w.ts t).st
+  cases pre with
+  | nil =>
+    simp only [List.nil_append, List.cons.injEq] at hlog
+    obtain ⟨he, _⟩ := hlog
+    subst he
+    rcases hres bytes hb with hzero | ⟨i, hi, hor⟩
+    · exact Or.inl hzero
+    · refine Or.inr ⟨i, hi, ?_⟩
+      rcases hor with hev | ⟨_, hraw⟩
+      · exact Or.inr ⟨_, List.mem_append_right _ (List.mem_singleton_self _), rfl, rfl, hev⟩
+      · exact Or.inl (hP t i hraw)
+  | cons e0 pre' =>
+    simp only [List.cons_append, List.cons.injEq] at hlog
+    obtain ⟨he0, hrest⟩ := hlog
+    have hih := (hQ w' (fun t' b' i => P t' b' i ∨ (t' = t ∧ b' = (w.ts t).base ∧
+        Ev.openEv (tensorPath (w.ts t).base.s (ps t).loc) (some i) ∈
+          (callT w.fs kfuel fuel cwdS cwd (ps t) (w.ts t).base ep (w.ts t).st).2.1)) rest).mp (ih _)
+    have := hih (by
+        intro t' i h
+        rw [hts] at h ⊢
+        by_cases htt : t' = t
+        · subst htt
+          simp only [if_true] at h ⊢
+          rcases hstate i h with h' | h'
+          · exact Or.inl (hP t' i h')
+          · exact Or.inr ⟨(by first | rfl | trivial), (by first | rfl | trivial), h'⟩
+        · simp only [htt, if_false] at h ⊢
+          exact Or.inl (hP t' i h)) pre' e post hrest bytes hb
+    rcases this with hzero | ⟨i, hi, hor⟩
+    · exact Or.inl hzero
+    · refine Or.inr ⟨i, hi, ?_⟩
+      rcases hor with (hp | ⟨ht, hbase, hev⟩) | ⟨e', he', ht', hb', hev⟩
+      · exact Or.inl hp
+      · refine Or.inr ⟨e0, by simp, ?_, ?_, ?_⟩
+        · rw [← he0]; exact ht.symm
+        · rw [← he0]; exact hbase.symm
+        · rw [← he0, ht, hbase]; exact hev
+      · exact Or.inr ⟨e', by simp only [List.cons_append, List.mem_cons]; exact Or.inr he', ht', hb', hev⟩
+
+theorem runMicro_bytes (kfuel fuel : Nat) (cwdS : Str) (cwd : Loc) (ps : Nat → TensorP) :
+    ∀ (mops : List MOp) (w : World) (P : Nat → BaseVal → Nat → Prop),
+      (∀ t i, (w.ts t).st.raw = some i → P t (w.ts t).base i) →
+      ∀ (pre : List WLog) (e : WLog) (post : List WLog),
+        runMicro kfuel fuel cwdS cwd ps w mops = pre ++ e :: post →
+        ∀ bytes, e.res = ReadResult.ok bytes →
+          (bytes = [] ∧ (ps e.t).zero = true ∧ e.ep ≠ EntryPoint.tofile) ∨
+          ∃ i, bytes = sliceOf (e.fs.data i) (ps e.t).offset (ps e.t).length ∧
+            (P e.t e.base i ∨ ∃ e' ∈ pre ++ [e], e'.t = e.t ∧ e'.base = e.base ∧
+              Ev.openEv (tensorPath e.base.s (ps e.t).loc) (some i) ∈ e'.events) := by
+  intro mops
+  induction mops with
+  | nil =>
+    intro w P _ pre e post hlog
+    simp [runMicro] at hlog
+  | cons x xs ih =>
+    intro w P hP pre e post hlog bytes hb
+    cases x with
+    | setFS fs =>
+      simp only [runMicro, stepWorld] at hlog
+      exact ih { w with fs := fs } P hP pre e post hlog bytes hb
+    | beginLoad =>
+      simp only [runMicro, stepWorld] at hlog
+      exact ih { w with aborted := false } P hP pre e post hlog bytes hb
+    | rebase t b =>
+      simp only [runMicro, stepWorld] at hlog
+      refine ih (w.set t ((w.ts t).rebase b)) P ?_ pre e post hlog bytes hb
+      intro t' i hi
+      simp only [World.set] at hi ⊢
+      by_cases htt : t' = t
+      · subst htt
+        simp only [if_true, TSess.rebase] at hi ⊢
+        by_cases hbe : b = (w.ts t').base
+        · simp only [hbe, if_true] at hi
+          rw [hbe]; exact hP t' i hi
+        · simp [hbe, TState.fresh] at hi
+      · simp only [htt, if_false] at hi ⊢
+        exact hP t' i hi
+    | release t =>
+      simp only [runMicro, stepWorld] at hlog
+      refine ih (w.set t { (w.ts t) with st := TState.fresh }) P ?_ pre e post hlog bytes hb
+      intro t' i hi
+      simp only [World.set] at hi ⊢
+      by_cases htt : t' = t
+      · subst htt
+        simp [TState.fresh] at hi
+      · simp only [htt, if_false] at hi ⊢
+        exact hP t' i hi
+    | call t ep =>
+      simp only [runMicro, stepWorld] at hlog
+      have := runMicro_bytes_step kfuel fuel cwdS cwd ps
+        (fun w P log => (∀ t i, (w.ts t).st.raw = some i → P t (w.ts t).base i) →
+          ∀ (pre : List WLog) (e : WLog) (post : List WLog), log = pre ++ e :: post →
+          ∀ bytes, e.res = ReadResult.ok bytes →
+            (bytes = [] ∧ (ps e.t).zero = true ∧ e.ep ≠ EntryPoint.tofile) ∨
+            ∃ i, bytes = sliceOf (e.fs.data i) (ps e.t).offset (ps e.t).length ∧
+              (P e.t e.base i ∨ ∃ e' ∈ pre ++ [e], e'.t = e.t ∧ e'.base = e.base ∧
+                Ev.openEv (tensorPath e.base.s (ps e.t).loc) (some i) ∈ e'.events))
+        (fun _ _ _ => Iff.rfl) w
+        (w.set t { (w.ts t) with st := (callT w.fs kfuel fuel cwdS cwd (ps t) (w.ts t).base ep (w.ts t).st).2.2 })
+        t ep _ rfl (fun P' hP' pre' e' post' hl' => ih _ P' hP' pre' e' post' hl') P
+      exact this hP pre e post hlog bytes hb
+    | loadOne t =>
+      by_cases hab : w.aborted = true
+      · simp only [runMicro, stepWorld, hab, if_true] at hlog
+        exact ih w P hP pre e post hlog bytes hb
+      · simp only [runMicro, stepWorld, hab, Bool.false_eq_true, if_false] at hlog
+        have := runMicro_bytes_step kfuel fuel cwdS cwd ps
+          (fun w P log => (∀ t i, (w.ts t).st.raw = some i → P t (w.ts t).base i) →
+            ∀ (pre : List WLog) (e : WLog) (post : List WLog), log = pre ++ e :: post →
+            ∀ bytes, e.res = ReadResult.ok bytes →
+              (bytes = [] ∧ (ps e.t).zero = true ∧ e.ep ≠ EntryPoint.tofile) ∨
+              ∃ i, bytes = sliceOf (e.fs.data i) (ps e.t).offset (ps e.t).length ∧
+                (P e.t e.base i ∨ ∃ e' ∈ pre ++ [e], e'.t = e.t ∧ e'.base = e.base ∧
+                  Ev.openEv (tensorPath e.base.s (ps e.t).loc) (some i) ∈ e'.events))
+          (fun _ _ _ => Iff.rfl) w
+          { (w.set t { (w.ts t) with st := (callT w.fs kfuel fuel cwdS cwd (ps t) (w.ts t).base
+              EntryPoint.serializeRaw (w.ts t).st).2.2 }) with
+            aborted := decide ((callT w.fs kfuel fuel cwdS cwd (ps t) (w.ts t).base
+              EntryPoint.serializeRaw (w.ts t).st).1 = ReadResult.raised) }
+          t EntryPoint.serializeRaw _ rfl
+          (fun P' hP' pre' e' post' hl' => ih _ P' hP' pre' e' post' hl') P
+        exact this hP pre e post hlog bytes hb
+
+/-- **C10_world_safe** (supersedes C10_session_safe: several tensors, zero-size tensors, base
+directory values of any type, and every public way of re-basing): for every history of public
+operations on the external tensors of a model - arbitrary changes of the tree, `tensor.base_dir = v`,
+`external_data.set_base_dir(graph, v)` (the setter on every tensor its walker reaches),
+`release()`, calls of any entry point, `load_to_model` / `convert_tensors_from_external` (the
+serialisation entry point on a list of tensors, stopping at the first raise); cloning a graph or
+model shares the tensor objects and is no operation here - starting with nothing mapped, and for
+every call `e` in the log (`pre` = the calls before it):
+(1) every file `e` opens is opened under a base directory that is not a `bytes` object and, when that
+    base directory is non-empty, is a safe open with respect to the tree and base directory at the
+    time of `e`;
+(2) the bytes `e` returns are either none at all (zero-size tensor, entry point other than
+    `tofile`), or the slice of an inode opened by `e` itself or by an EARLIER call `e'` ON THE SAME
+    TENSOR made under the SAME base directory value as `e`'s; that open was a safe open with respect
+    to `e`'s base directory in the tree of that moment.  A mapping obtained under one base directory
+    is never served under another. -/
+theorem C10_world_safe (kfuel fuel : Nat) (cwd : Loc) (hfuel : kfuel ≤ fuel) (ps : Nat → TensorP)
+    (w0 : World) (h0 : ∀ t, (w0.ts t).st.raw = none) (ops : List WOp)
+    (pre : List WLog) (e : WLog) (post : List WLog)
+    (hlog : runWorld kfuel fuel (render cwd) cwd ps w0 ops = pre ++ e :: post) :
+    (∀ q i, Ev.openEv q (some i) ∈ e.events →
+      e.base.kind ≠ BaseKind.bytes ∧ ((ps e.t).zero = true → e.ep = EntryPoint.tofile) ∧
+      (e.base.s ≠ [] → RealDir e.fs cwd →
+        q = tensorPath e.base.s (ps e.t).loc ∧ SafeOpen e.fs kfuel fuel cwd e.base.s (ps e.t).loc i)) ∧
+    (∀ bytes, e.res = ReadResult.ok bytes →
+      (bytes = [] ∧ (ps e.t).zero = true ∧ e.ep ≠ EntryPoint.tofile) ∨
+      ∃ i, bytes = sliceOf (e.fs.data i) (ps e.t).offset (ps e.t).length ∧
+        ∃ e' ∈ pre ++ [e], e'.t = e.t ∧ e'.base = e.base ∧
+          Ev.openEv (tensorPath e.base.s (ps e.t).loc) (some i) ∈ e'.events ∧
+          (e.base.s ≠ [] → RealDir e'.fs cwd → SafeOpen e'.fs kfuel fuel cwd e.base.s (ps e.t).loc i)) := by
+  unfold runWorld at hlog
+  have hsafe : ∀ x ∈ runMicro kfuel fuel (render cwd) cwd ps w0 (expandAll ops), ∀ q i,
+      Ev.openEv q (some i) ∈ x.events →
+      x.base.kind ≠ BaseKind.bytes ∧ ((ps x.t).zero = true → x.ep = EntryPoint.tofile) ∧
+      (x.base.s ≠ [] → RealDir x.fs cwd →
+        q = tensorPath x.base.s (ps x.t).loc ∧ SafeOpen x.fs kfuel fuel cwd x.base.s (ps x.t).loc i) := by
+    intro x hx q i hm
+    obtain ⟨st, hev, _⟩ := runMicro_entries kfuel fuel (render cwd) cwd ps _ w0 x hx
+    rw [hev] at hm
+    exact callT_opens x.fs kfuel fuel cwd hfuel (ps x.t) x.base x.ep st q i hm
+  refine ⟨hsafe e (by rw [hlog]; simp), ?_⟩
+  intro bytes hb
+  rcases runMicro_bytes kfuel fuel (render cwd) cwd ps _ w0 (fun _ _ _ => False)
+    (by intro t i h; rw [h0 t] at h; exact absurd h (by simp)) pre e post hlog bytes hb with hz | ⟨i, hi, hor⟩
+  · exact Or.inl hz
+  · refine Or.inr ⟨i, hi, ?_⟩
+    rcases hor with hf | ⟨e', he', ht, hbase, hev⟩
+    · exact absurd hf id
+    · refine ⟨e', he', ht, hbase, hev, ?_⟩
+      intro hne hcwd
+      have hmem : e' ∈ runMicro kfuel fuel (render cwd) cwd ps w0 (expandAll ops) := by
+        rw [hlog]
+        rcases List.mem_append.mp he' with h | h
+        · exact List.mem_append.mpr (Or.inl h)
+        · have : e' = e := by simpa using h
+          subst this
+          simp
+      have := (hsafe e' hmem (tensorPath e.base.s (ps e.t).loc) i hev).2.2
+        (by rw [hbase]; exact hne) hcwd
+      rw [ht, hbase] at this
+      exact this.2
+
+end IrVerif.Path
+
+namespace IrVerif.Path
+
+/-- C10_world_safe is not vacuous: `set_base_dir` with a pathlib value, then `load_to_model`, on the
+tree /b/f: the log has an entry that returns bytes -/
+example : ∃ pre e post,
+    runWorld 40 40 (render []) [] (fun _ => { loc := "f".toList, offset := 0, length := 3, zero := false })
+      { fs := exFS, ts := fun _ => { base := { kind := BaseKind.str, s := [] }, st := TState.fresh },
+        aborted := false }
+      [WOp.setBaseDir [0] { kind := BaseKind.pathlike, s := "/b".toList }, WOp.loadToModel [0]] =
+        pre ++ e :: post ∧
+    e.res = ReadResult.ok [10, 20, 30] := by
+  refine ⟨[], _, _, rfl, ?_⟩
+  have := ex_read EntryPoint.serializeRaw
+  unfold read at this
+  simpa [callT, stepWorld, World.set, TSess.rebase, TState.fresh] using this
 
 end IrVerif.Path
